@@ -1,5 +1,6 @@
 ---- MODULE MdibMC ----
 EXTENDS Mdib
+ASSUME TLCSet(7, {})
 McH == {"vmd", "ch", "m1", "dA", "dB", "pc"}
 McCH == {"c1", "c2"}
 McKind == [h \in McH |-> CASE h \in {"m1", "dB"} -> "metric" [] h = "pc" -> "ctx" [] OTHER -> "comp"]
@@ -28,4 +29,10 @@ TrkParents == [h \in TrkH |-> IF h = "dB" THEN {"ch"} ELSE {}]
 TrkRemovable == {"dB"}
 TrkCH == {}
 TrkCtxOf == <<>>
+\* test purposes for one descriptor transaction (breadth-first, one worker): the first (= a shortest) history for every
+\* situation label of a committed / aborted descriptor transaction of up to four calls - random simulation reaches the
+\* longer ones (two children of one parent created / deleted and the parent updated after them) far too rarely
+EmitDPurpose == (hist # <<>> /\ hist[Len(hist)].act \in {"Commit", "Abort"})
+                => LET fresh == hist[Len(hist)].sit \ TLCGet(7)
+                   IN fresh # {} => (PrintT(<<"BEH", ToJson(hist)>>) /\ TLCSet(7, TLCGet(7) \cup fresh))
 ====
